@@ -8,3 +8,6 @@ package util
 //@   requires source != nil && dest != nil
 //@   ensures deepEqual(*dest, *source)
 //@   modifies *dest, new(model.FeatureAddressType)
+
+// the reflect.Type of a type parameter (used for error texts only)
+//@ func Type trusted pure const
